@@ -138,7 +138,12 @@ class CaseInsensitiveOrderedDict(DefaultOrderedDict):
         # pylint: disable=protected-access
         return super().setdefault(self.__class__._k(key), *args, **kwargs)
 
-    def update(self, e=None, **f):
+    def update(self, *args, **f):
+        # the mapping / iterable of pairs is positional-only, as in dict.update(),
+        # so that a keyword argument may have any name, including "e"
+        if len(args) > 1:
+            raise TypeError(f"update expected at most 1 argument, got {len(args)}")
+        e = args[0] if args else None
         if e is not None:
             super().update(self.__class__(CaseInsensitiveOrderedDict, e))
         super().update(self.__class__(CaseInsensitiveOrderedDict, **f))
